@@ -90,6 +90,9 @@ pub enum First {
     Ready,
     OtherCommand,
     Message,
+    /// a READY frame whose property list is the cell's (Socket-Type first) followed, inside the
+    /// declared frame, by 7 bytes 0xFF: not a READY command under the RFC grammar
+    ReadyGarbageTail,
 }
 
 #[derive(Debug, Clone, Serialize, Deserialize, PartialEq, Eq, Hash)]
@@ -183,6 +186,24 @@ impl Cell {
                     props.push((format!("X-Extra-{}", i).into_bytes(), vec![b'x'; i as usize * 40]));
                 }
                 out.extend_from_slice(&refcodec::encode_command(b"READY", &props));
+            }
+            First::ReadyGarbageTail => {
+                let mut body = vec![5u8];
+                body.extend_from_slice(b"READY");
+                if let Some(t) = self.peer_type_name() {
+                    body.push(11);
+                    body.extend_from_slice(b"Socket-Type");
+                    body.extend_from_slice(&(t.len() as u32).to_be_bytes());
+                    body.extend_from_slice(t.as_bytes());
+                }
+                if let Some(id) = self.identity() {
+                    body.push(8);
+                    body.extend_from_slice(b"Identity");
+                    body.extend_from_slice(&(id.len() as u32).to_be_bytes());
+                    body.extend_from_slice(&id);
+                }
+                body.extend_from_slice(&[0xFF; 7]);
+                refcodec::encode_frame(&mut out, &body, false, true);
             }
             First::OtherCommand => {
                 // ERROR command: name + reason (RFC 23)
@@ -359,7 +380,7 @@ pub fn grid() -> Vec<Cell> {
                 for mech in [Mech::Null, Mech::Plain, Mech::Curve, Mech::Unknown, Mech::Empty, Mech::Unpadded] {
                     for sig in [Sig::Ok, Sig::Byte0Wrong, Sig::Byte9Wrong] {
                         for ident in [Ident::Absent, Ident::Empty, Ident::Len(1), Ident::Len(255), Ident::Len(256)] {
-                            for first in [First::Ready, First::OtherCommand, First::Message] {
+                            for first in [First::Ready, First::OtherCommand, First::Message, First::ReadyGarbageTail] {
                                 v.push(Cell {
                                     local,
                                     peer_type: *pt,
@@ -558,7 +579,7 @@ pub fn accept_grid() -> Vec<AcceptCase> {
         for ident in [Ident::Empty, Ident::Len(1), Ident::Len(255), Ident::Len(256)] {
             cells.push(Cell { ident, ..base.clone() });
         }
-        for first in [First::OtherCommand, First::Message] {
+        for first in [First::OtherCommand, First::Message, First::ReadyGarbageTail] {
             cells.push(Cell { first, ..base.clone() });
         }
         for (i, cell) in cells.into_iter().enumerate() {
@@ -672,7 +693,7 @@ pub fn run(ctx: &Ctx) -> (Report, PropertyMeta) {
                     4 => Ident::Len(256),
                     _ => Ident::Len(s.range(257, 2000) as u16),
                 },
-                first: s.pick(&[First::Ready, First::Ready, First::Ready, First::OtherCommand, First::Message]),
+                first: s.pick(&[First::Ready, First::Ready, First::Ready, First::OtherCommand, First::Message, First::ReadyGarbageTail]),
                 as_server: s.pick(&[0u8, 1, 2, 255]),
                 sig_pad: s.pick(&[0u8, 1, 0xFF]),
                 extra_props: s.below(4) as u8,
